@@ -33,6 +33,10 @@ def gen_event(t, latin):
         s = "".join(t.choice(alpha) for _ in range(n))
         if latin:
             s = "".join(c for c in s if ord(c) < 256)
+        if t.draw(25) == 0:
+            # one very long line (longer than every common line buffer) somewhere in the text
+            k = t.draw(len(s) + 1)
+            s = s[:k] + t.choice("ab ") * t.choice([4097, 65529, 65530, 65537, 70001]) + s[k:]
         ev["data"] = s
     if t.draw(5) < 2:
         nm = t.choice(NAMES)
@@ -41,7 +45,7 @@ def gen_event(t, latin):
         i = t.choice(IDS)
         ev["id"] = "".join(c for c in i if ord(c) < 256) if latin else i
     if t.draw(3) == 0:
-        ev["retry"] = t.choice([0, 1, 3000, 99999])
+        ev["retry"] = t.choice([0, 1, 3000, 99999, 2 ** 31, 2 ** 53 + 1, 10 ** 18 + 1, 2 ** 64 + 1])
     return ev
 
 
@@ -105,7 +109,9 @@ class C19(Prop):
                 "delays": [t.choice(ds) for _ in range(n + 1)], "end_delay": t.choice((0.0, P + 0.001)),
                 "lat": t.choice(["fast", "mixed"]), "rechunk": t.draw(3),
                 # the response object is mounted as an application and serves two requests (its feed is re-iterable)
-                "reuse": t.draw(6) == 0}
+                "reuse": t.draw(6) == 0,
+                # (ASGI) the receive channel has nothing to offer besides the request: asking again raises; the client is still there
+                "recv_raises": t.draw(8) == 0}
         if surface == "wsgi-sse":
             plan["preempt"] = t.choice([(0, 1), (1, 20), (1, 5)])
             plan["cdelays"] = [t.choice((0.0, 0.0, 0.001, P / 2, P + 0.001)) for _ in range(6)]
@@ -154,7 +160,7 @@ class C19(Prop):
                 def __aiter__(self):
                     return gen()
 
-            peer = AsgiHttpPeer(loop, ctx, ctx.sched, AbstractRequest("GET", "/"), send_lats=lats, surface="asgi-sse")
+            peer = AsgiHttpPeer(loop, ctx, ctx.sched, AbstractRequest("GET", "/"), send_lats=lats, surface="asgi-sse", recv_raises_after_script=plan.get("recv_raises", False))
             r = SendEventResponse(Feed() if plan.get("reuse") else gen(), ping_interval=P, charset=plan["charset"])
             exc = None
             try:
@@ -162,7 +168,7 @@ class C19(Prop):
                 if plan.get("reuse"):
                     ctx.probe("response_object_reused")
                     first = b"".join(peer.body_chunks)
-                    peer = AsgiHttpPeer(loop, ctx, ctx.sched, AbstractRequest("GET", "/"), send_lats=lats, surface="asgi-sse")
+                    peer = AsgiHttpPeer(loop, ctx, ctx.sched, AbstractRequest("GET", "/"), send_lats=lats, surface="asgi-sse", recv_raises_after_script=plan.get("recv_raises", False))
                     await r(peer.scope, peer.receive, peer.send)
                     second = b"".join(peer.body_chunks)
                     if first.replace(b": ping\n\n", b"") != second.replace(b": ping\n\n", b""):
